@@ -64,14 +64,14 @@ Proof. split; [apply eqb_prop|intros ->; apply eqb_reflx]. Qed.
 
 Lemma snap_eqb_eq a b : snap_eqb a b = true <-> a = b.
 Proof.
-  destruct a as [a1 a2 a3 a4 a5 a6], b as [b1 b2 b3 b4 b5 b6].
-  unfold snap_eqb. cbn [sn_entities sn_comps sn_exists sn_procs sn_cent sn_world].
+  destruct a as [a1 a2 a3 a4 a5 a6 a7], b as [b1 b2 b3 b4 b5 b6 b7].
+  unfold snap_eqb. cbn [sn_entities sn_comps sn_exists sn_procs sn_prios sn_cent sn_world].
   rewrite !andb_true_iff, !zs_eqb_eq.
   rewrite (list_eqb_eq zs_eqb zs_eqb_eq), (list_eqb_eq Bool.eqb bool_eqb_eq),
     (list_eqb_eq cent_eqb cent_eqb_eq), bool_eqb_eq.
   split.
-  - intros (((((-> & ->) & ->) & ->) & ->) & ->). reflexivity.
-  - intros [= -> -> -> -> -> ->]. tauto.
+  - intros ((((((-> & ->) & ->) & ->) & ->) & ->) & ->). reflexivity.
+  - intros [= -> -> -> -> -> -> ->]. tauto.
 Qed.
 
 (* ---- how an operation moves (enabled, relay queue, entity fields) ------- *)
